@@ -199,7 +199,9 @@ def replay(fx, hist, k):
     loop = asyncio.new_event_loop()
     loop.set_exception_handler(lambda l, c: None)
     try:
-        ev = loop.run_until_complete(asyncio.wait_for(rp.run(hist), 60))
+        ev = loop.run_until_complete(asyncio.wait_for(rp.run(hist), 600))
+    except asyncio.TimeoutError:
+        ev = rp.ev + [{"e": "noreturn", "d": {"st": 0, "cfg": 0, "idx": 0}}]
     finally:
         loop.close()
     import shutil
